@@ -9,7 +9,6 @@ package drivers
 // is validated against spec/TraceMux.tla by TLC.
 
 import (
-	"runtime"
 	"bufio"
 	"encoding/json"
 	"fmt"
@@ -20,6 +19,7 @@ import (
 	"os"
 	"path/filepath"
 	"reflect"
+	"runtime"
 	"strings"
 	"sync"
 	"sync/atomic"
@@ -74,9 +74,9 @@ type MuxScenario struct {
 	// SpinID/SpinN: the first goroutine that reaches the slot lookup (mux.getstream, inside the broker's
 	// critical section) for this id yields the processor SpinN times there without blocking, so that
 	// whoever else wants the same slot gets to the critical section meanwhile (free mode)
-	SpinID uint32 `json:"spin_id,omitempty"`
-	SpinN  int    `json:"spin_n,omitempty"`
-	Script  []string  `json:"script"` // optional TLC-derived preference order of goroutine labels
+	SpinID uint32   `json:"spin_id,omitempty"`
+	SpinN  int      `json:"spin_n,omitempty"`
+	Script []string `json:"script"` // optional TLC-derived preference order of goroutine labels
 	// Bulk: after the connection is established the dialer waits BulkDelay ms, then writes BulkLen
 	// pattern bytes while the acceptor starts reading BulkReadDelay ms late (complete and in order?)
 	BulkLen       int `json:"bulk_len"`
